@@ -8,11 +8,12 @@ import (
 
 func TestVerifReplay(t *testing.T) {
 	verifsym.RunReplay(t, map[string]any{
-		"Verif_C19_SplitLossless":   Verif_C19_SplitLossless,
-		"Verif_C19_ConvertersTotal": Verif_C19_ConvertersTotal,
-		"Verif_C19_SplitLong":       Verif_C19_SplitLong,
-		"Verif_C19_ConvertersLong":  Verif_C19_ConvertersLong,
-		"Verif_Self_UTF8RoundTrip":  Verif_Self_UTF8RoundTrip,
-		"Verif_Self_Strings":        Verif_Self_Strings,
+		"Verif_C19_SplitLossless":    Verif_C19_SplitLossless,
+		"Verif_C19_ConvertersTotal":  Verif_C19_ConvertersTotal,
+		"Verif_C19_SplitLong":        Verif_C19_SplitLong,
+		"Verif_C19_ConverterHistory": Verif_C19_ConverterHistory,
+		"Verif_C19_ConvertersLong":   Verif_C19_ConvertersLong,
+		"Verif_Self_UTF8RoundTrip":   Verif_Self_UTF8RoundTrip,
+		"Verif_Self_Strings":         Verif_Self_Strings,
 	})
 }
